@@ -43,7 +43,7 @@ fn nodevol_count(tier: Tier) -> u64 {
 fn exec_nodevol(plan: &Plan, st: &mut Stats) -> Result<(), Violation> {
     use rosu_map::section::general::GameMode;
     use rosu_map::section::hit_objects::hit_samples::HitSampleInfo;
-    use rosu_map::section::hit_objects::{HitObject, HitObjectKind, HitObjectSlider, PathControlPoint, SliderPath};
+    use rosu_map::section::hit_objects::{Curve, CurveBuffers, HitObject, HitObjectKind, HitObjectSlider, PathControlPoint, SliderPath};
     use rosu_map::section::timing_points::{TimeSignature, TimingPoint};
     use rosu_map::util::Pos;
     use rosu_map::Beatmap;
@@ -51,10 +51,8 @@ fn exec_nodevol(plan: &Plan, st: &mut Stats) -> Result<(), Violation> {
     let mut map = Beatmap { mode, ..Default::default() };
     map.control_points.add(TimingPoint::new(0.0, 500.0, false, TimeSignature::new_simple_quadruple()));
     let vol = |v: f64| -> Vec<HitSampleInfo> { if v < 0.0 { Vec::new() } else { vec![HitSampleInfo::new(HitSampleInfo::HIT_NORMAL, None, 0, v as i32)] } };
-    // (node time, expected volume)
-    let mut claims: Vec<(f64, i32, usize, usize, Option<i32>)> = Vec::new();
     let mut t = 1000.0f64;
-    for (si, op) in plan.ops.iter().filter(|o| o.k == "slider").enumerate() {
+    for op in plan.ops.iter().filter(|o| o.k == "slider") {
         let (gap, len, velocity, repeats, nlists, objv) = (op.arg(0), op.arg(1), op.arg(2), op.iarg(3).clamp(0, 9100) as i32, op.iarg(4).max(0) as usize, op.arg(5));
         let vols: Vec<f64> = op.a[6..].to_vec();
         let start = t + gap;
@@ -64,57 +62,100 @@ fn exec_nodevol(plan: &Plan, st: &mut Stats) -> Result<(), Violation> {
         for k in 0..nlists.min(nodes + 2) {
             slider.node_samples.push(vol(vols[k % vols.len().max(1)]));
         }
-        let dist = slider.path.curve().dist();
-        let spans = f64::from(repeats + 1);
-        let duration = spans * dist / velocity;
-        let span_dur = duration / spans;
-        // the public duration API is what both consumers derive the span duration from
-        let api = slider.duration();
-        if api.to_bits() != duration.to_bits() && !(api.is_nan() && duration.is_nan()) {
-            return Err(Violation::new("C20/encoder-span-duration", "duration", format!("slider #{si}: HitObjectSlider::duration() = {api}, span count x curve distance / velocity = {duration} (spans {spans}, dist {dist}, velocity {velocity})")));
-        }
-        let claimable = span_dur.is_finite() && span_dur > 1e-3 && duration < 1e9;
-        if claimable {
-            for k in 0..nodes {
-                let eff = match slider.node_samples.get(k) {
-                    Some(l) => l.first().map(|s| s.volume),
-                    None => if objv < 0.0 { None } else { Some(objv as i32) },
-                };
-                // the tail shares its time with the object's own end-time sample, which is collected first: the node wins;
-                // a node without any sample leaves the object's end-time sample in force there
-                let eff = if k == nodes - 1 && eff.is_none() && objv >= 0.0 { Some(objv as i32) } else { eff };
-                // (the object's end time and the last node's time are computed along different routes and may differ by
-                // an ulp either way: at the tail the object's own volume is accepted as well)
-                let alt = if k == nodes - 1 && objv >= 0.0 { Some(objv as i32) } else { None };
-                if let Some(v) = eff {
-                    claims.push((start + k as f64 * span_dur, v, si, k, alt));
-                }
-            }
-        }
+        // room for the slider at its full length (a later edit only shortens it)
+        let duration = f64::from(repeats + 1) * len / velocity;
         map.hit_objects.push(HitObject { start_time: start, kind: HitObjectKind::Slider(slider), samples: vol(objv) });
         t = if duration.is_finite() { start + duration.min(1e9) + 500.0 } else { start + 5000.0 };
     }
     st.add("steps.ops_applied", map.hit_objects.len() as u64);
-    let text = match map.encode_to_string() {
-        Ok(t) => t,
-        Err(_) => return Ok(()),
-    };
-    let back: Beatmap = match rosu_map::from_str(&text) {
-        Ok(b) => b,
-        Err(_) => return Ok(()),
-    };
-    st.inc("ops.encoder-node-volume-lookups");
     let mut h = Fnv::new();
-    for (time, v, si, k, alt) in claims {
-        let got = back.control_points.sample_point_at(time + 1e-6).map(|p| p.sample_volume);
-        h.u64(got.unwrap_or(-1) as u64);
-        st.inc("steps.node-volume-claims");
-        if got != Some(v) && !(alt.is_some() && got == alt) {
-            return Err(Violation::new(
-                "C20/encoder-node-sample-missing",
-                "node-volume",
-                format!("slider #{si}, node {k} (closed-form time {time}): its samples carry volume {v}, but in the encoded map the sample point active right after that time has volume {got:?} — the head / repeat / tail event of that node was not consumed at its time with its samples\n[TimingPoints] written:\n{}", text.split("[TimingPoints]").nth(1).unwrap_or("").split("\n[").next().unwrap_or("")),
-            ));
+    // pass 0: the map as built; pass 1: after a user shortened every other slider through expected_dist_mut (the curves the
+    // first encode left behind must not be what the second encode walks)
+    for pass in 0..2 {
+        if pass == 1 {
+            if plan.get("second_pass") == 0 {
+                break;
+            }
+            for (si, ho) in map.hit_objects.iter_mut().enumerate() {
+                if let HitObjectKind::Slider(sl) = &mut ho.kind {
+                    if si % 2 == 0 {
+                        let d = sl.path.expected_dist().map(|d| d * 0.5);
+                        *sl.path.expected_dist_mut() = d;
+                    }
+                }
+            }
+            st.inc("ops.encoder-second-pass-after-length-edit");
+        }
+        // (node time, expected volume, slider, node, accepted alternative)
+        let mut claims: Vec<(f64, i32, usize, usize, Option<i32>)> = Vec::new();
+        for (si, ho) in map.hit_objects.iter_mut().enumerate() {
+            let start = ho.start_time;
+            let objv: Option<i32> = ho.samples.first().map(|s| s.volume);
+            let HitObjectKind::Slider(slider) = &mut ho.kind else { continue };
+            let nodes = slider.repeat_count as usize + 2;
+            // what the path's length is, computed from scratch
+            let dist = Curve::new(mode, slider.path.control_points(), slider.path.expected_dist(), &mut CurveBuffers::default()).dist();
+            let spans = f64::from(slider.repeat_count + 1);
+            let duration = spans * dist / slider.velocity;
+            let span_dur = duration / spans;
+            // the public duration API is what both consumers derive the span duration from
+            let api = slider.duration();
+            if api.to_bits() != duration.to_bits() && !(api.is_nan() && duration.is_nan()) {
+                return Err(Violation::new("C20/encoder-span-duration", "duration", format!("slider #{si} (pass {pass}): HitObjectSlider::duration() = {api}, span count x curve distance / velocity = {duration} (spans {spans}, dist {dist}, velocity {})", slider.velocity)));
+            }
+            let eff_of = |k: usize| -> Option<i32> {
+                match slider.node_samples.get(k) {
+                    Some(l) => l.first().map(|s| s.volume),
+                    None => objv,
+                }
+            };
+            if duration == 0.0 && slider.velocity > 0.0 {
+                // a slider of no length: every node shares the start time; the stream order (head, repeats, tail) decides, so
+                // the tail's samples are what stays in force
+                if let Some(v) = eff_of(nodes - 1) {
+                    claims.push((start, v, si, nodes - 1, None));
+                }
+            }
+            let claimable = span_dur.is_finite() && span_dur > 1e-3 && duration < 1e9;
+            if claimable {
+                for k in 0..nodes {
+                    let eff = eff_of(k);
+                    // the tail shares its time with the object's own end-time sample, which is collected first: the node
+                    // wins; a node without any sample leaves the object's end-time sample in force there
+                    let eff = if k == nodes - 1 && eff.is_none() { objv } else { eff };
+                    // (the object's end time and the last node's time are computed along different routes and may differ
+                    // by an ulp either way: at the tail the object's own volume is accepted as well)
+                    let alt = if k == nodes - 1 { objv } else { None };
+                    if let Some(v) = eff {
+                        claims.push((start + k as f64 * span_dur, v, si, k, alt));
+                        // ... and it is not in force before its time: right before node k+1 the volume is still this node's
+                        if k + 1 < nodes {
+                            claims.push((start + (k + 1) as f64 * span_dur - 2e-6, v, si, k, None));
+                        }
+                    }
+                }
+            }
+        }
+        let text = match map.encode_to_string() {
+            Ok(t) => t,
+            Err(_) => return Ok(()),
+        };
+        let back: Beatmap = match rosu_map::from_str(&text) {
+            Ok(b) => b,
+            Err(_) => return Ok(()),
+        };
+        st.inc("ops.encoder-node-volume-lookups");
+        for (time, v, si, k, alt) in claims {
+            let got = back.control_points.sample_point_at(time + 1e-6).map(|p| p.sample_volume);
+            h.u64(got.unwrap_or(-1) as u64);
+            st.inc("steps.node-volume-claims");
+            if got != Some(v) && !(alt.is_some() && got == alt) {
+                return Err(Violation::new(
+                    "C20/encoder-node-sample-missing",
+                    "node-volume",
+                    format!("slider #{si}, node {k} (pass {pass}, closed-form time {time}): its samples carry volume {v}, but in the encoded map the sample point active right after that time has volume {got:?} — the head / repeat / tail event of that node was not consumed at its time with its samples\n[TimingPoints] written:\n{}", text.split("[TimingPoints]").nth(1).unwrap_or("").split("\n[").next().unwrap_or("")),
+                ));
+            }
         }
     }
     st.outcome = h.finish();
@@ -562,10 +603,11 @@ impl Scenario for C20 {
         if idx >= self.total_runs(_tier) - nodevol_count(_tier) {
             let mut p = Plan::new("C20", "encoder-node-volumes", seed, idx);
             p.set("mode", *rng.pick(&[0i64, 2]));
+            p.set("second_pass", rng.below(2) as i64);
             for _ in 0..1 + rng.below(4) {
                 let repeats = if rng.chance(1, 300) { 9000 + rng.below(12) } else if rng.chance(1, 10) { 5 + rng.below(30) } else { rng.below(5) } as f64;
                 let nodes = repeats as usize + 2;
-                let len = *rng.pick(&[100.0, 50.0, 300.0, 37.5, 120.25, 5.0]) * (0.5 + rng.unit());
+                let len = if rng.chance(1, 12) { 0.0 } else { *rng.pick(&[100.0, 50.0, 300.0, 37.5, 120.25, 5.0]) * (0.5 + rng.unit()) };
                 let velocity = if rng.chance(1, 30) { 0.0 } else { *rng.pick(&[0.5, 1.0, 0.78, 2.0, 1.4, 0.1, 3.3]) * if rng.chance(1, 2) { 1.0 } else { 0.5 + rng.unit() } };
                 let nlists = match rng.below(6) {
                     0 => 0,
